@@ -88,6 +88,146 @@ def fmt(d):
     return d.strftime('%d.%m.%Y %H:%M')
 
 
+def _plain(d):
+    return REAL(d.year, d.month, d.day, d.hour, d.minute)
+
+
+_DF_TOKENS = [('YYYY', r'(?P<Y>\d{4})'), ('MM', r'(?P<M>\d\d)'), ('DD', r'(?P<D>\d\d)'), ('HH', r'(?P<h>\d\d)'), ('mm', r'(?P<m>\d\d)')]
+_TAGS = ('milestone', 'done', 'active', 'crit')
+
+
+def _date_regex(fmt_):
+    """regex for a Mermaid/dayjs dateFormat made of YYYY MM DD HH mm and literal separators"""
+    out, i = '', 0
+    while i < len(fmt_):
+        for tok, rx in _DF_TOKENS:
+            if fmt_.startswith(tok, i):
+                out += rx
+                i += len(tok)
+                break
+        else:
+            out += re.escape(fmt_[i])
+            i += 1
+    return re.compile(out + r'$')
+
+
+def parse_gantt(src):
+    """Mermaid gantt grammar (the subset the property speaks about): `dateFormat <fmt>`, `section <name>`, and task
+    lines `<title> : [tag, ...] id_<id>, <start>, <end>` with free spacing.  Returns (Counter of (id, start, end,
+    milestone)), unparsable task lines, {id: section})."""
+    got = collections.Counter()
+    bad = []
+    sect_of = {}
+    cur = None
+    drx = _date_regex('DD.MM.YYYY HH:mm')
+    for raw in src.split('\n'):
+        line = raw.strip()
+        if not line or line == 'gantt':
+            continue
+        if line.startswith('dateFormat'):
+            drx = _date_regex(line[len('dateFormat'):].strip())
+            continue
+        if line.startswith('section '):
+            cur = line[len('section '):].strip()
+            continue
+        if re.match(r'(title|excludes|tickInterval|axisFormat|todayMarker|weekday|includes)\b', line):
+            continue
+        if ':' not in line:
+            bad.append(raw)
+            continue
+        meta = [x.strip() for x in line.split(':', 1)[1].split(',')]
+        # the two date fields may themselves contain ':' (HH:mm) but never ',' -- so the comma split is safe
+        tags = []
+        while meta and meta[0] in _TAGS:
+            tags.append(meta.pop(0))
+        if len(meta) != 3 or not re.fullmatch(r'id_-?\d+', meta[0]):
+            bad.append(raw)
+            continue
+        ds = []
+        for f in meta[1:]:
+            m = drx.match(f)
+            if not m:
+                ds = None
+                break
+            g = m.groupdict()
+            try:
+                ds.append(REAL(int(g['Y']), int(g['M']), int(g['D']), int(g.get('h') or 0), int(g.get('m') or 0)))
+            except (ValueError, KeyError, TypeError):
+                ds = None
+                break
+        if ds is None:
+            bad.append(raw)
+            continue
+        tid = int(meta[0][3:])
+        got[(tid, ds[0], ds[1], 'milestone' in tags)] += 1
+        sect_of[tid] = cur
+    return got, bad, sect_of
+
+
+_NODE = re.compile(r'\s*(?P<id>-?\w+)(?P<shape>\{\{|\(\(|\[)?')
+_CLOSE = {'{{': '}}', '((': '))', '[': ']'}
+
+
+def parse_network(src, task_ids):
+    """Mermaid flowchart subset: node := id [shape text]; line := node [--> node]; `style ...` lines ignored.  A node
+    whose text is Start (or whose id is 0 / Start and is no task id) is the start node.  Node text ends at the first
+    closing delimiter (that is what makes a name containing '}}' unreadable: F-V2).  Returns (Counter of edges, bad lines)."""
+    got = collections.Counter()
+    bad = []
+    start_ids = set()
+
+    def node(line, pos):
+        m = _NODE.match(line, pos)
+        if not m:
+            return None
+        end = m.end()
+        text = None
+        if m.group('shape'):
+            close = _CLOSE[m.group('shape')]
+            k = line.find(close, end)
+            if k < 0:
+                return None
+            text = line[end:k]
+            end = k + len(close)
+        nid = m.group('id')
+        if text is not None and text.strip() == 'Start':
+            start_ids.add(nid)
+        return nid, end
+    for raw in src.split('\n'):
+        line = raw.rstrip()
+        if not line.strip() or line.strip().startswith(('flowchart', 'graph', 'style', 'classDef', 'class ', '%%')):
+            continue
+        a = node(line, 0)
+        if not a:
+            bad.append(raw)
+            continue
+        rest = line[a[1]:]
+        if not rest.strip():
+            continue                      # node declaration
+        m = re.match(r'\s*-->\s*', rest)
+        if not m:
+            bad.append(raw)
+            continue
+        b_ = node(line, a[1] + m.end())
+        if not b_ or line[b_[1]:].strip():
+            bad.append(raw)
+            continue
+
+        def key(nid):
+            if nid in start_ids or (nid in ('0', 'Start') and _as_int(nid) not in task_ids):
+                return 'S'
+            return _as_int(nid)
+        got[(key(a[0]), key(b_[0]))] += 1
+    return got, bad
+
+
+def _as_int(x):
+    try:
+        return int(x)
+    except ValueError:
+        return x
+
+
 def frag_class(names):
     out = set()
     for n in names:
@@ -153,22 +293,9 @@ def judge(case, acc):
     try:
         doc = MermaidGantt(s).to_html()
         d = parse_doc(doc)
-        src = ''.join(d.mermaid).split('\n')
-        got = collections.Counter()
-        bad = []
-        cur = None
-        sect_of = {}
-        for line in src:
-            if line.startswith('  section '):
-                cur = line[len('  section '):]
-            elif line.startswith('    '):
-                m = GLINE.match(line)
-                if not m:
-                    bad.append(line)
-                    continue
-                got[(int(m['id']), m['s'], m['e'], m['state'] == 'milestone,')] += 1
-                sect_of[int(m['id'])] = cur
-        exp = collections.Counter((t.id, fmt(t.start), fmt(t.end), bool(t.milestone)) for t in tasks)
+        got, bad, sect_of = parse_gantt(''.join(d.mermaid))
+        exp = collections.Counter((t.id, t.start.replace(second=0, microsecond=0), t.end.replace(second=0, microsecond=0), bool(t.milestone)) for t in tasks)
+        exp = collections.Counter({(k[0], _plain(k[1]), _plain(k[2]), k[3]): v for k, v in exp.items()})
         acc.count('milestone_entries', sum(1 for t in tasks if t.milestone))
         if bad or got != exp:
             viol('gantt/task-lines',
@@ -189,37 +316,7 @@ def judge(case, acc):
     try:
         doc = MermaidNetwork(s).to_html()
         d = parse_doc(doc)
-        src = ''.join(d.mermaid).split('\n')
-        got = collections.Counter()
-        bad = []
-
-        def node(line, pos):
-            m = NODE.match(line, pos)
-            if not m:
-                return None
-            end = line.find('}}', m.end())
-            if end < 0:
-                return None
-            return int(m.group(1)), end + 2
-        for line in src:
-            if not line.startswith('  ') or line.startswith('style'):
-                continue
-            if line.startswith('  0((Start)) --> '):
-                n = node(line, len('  0((Start)) --> '))
-                if not n or n[1] != len(line):
-                    bad.append(line)
-                    continue
-                got[('S', n[0])] += 1
-            else:
-                a = node(line, 2)
-                if not a or not line.startswith(' --> ', a[1]):
-                    bad.append(line)
-                    continue
-                b_ = node(line, a[1] + 5)
-                if not b_ or b_[1] != len(line):
-                    bad.append(line)
-                    continue
-                got[(a[0], b_[0])] += 1
+        got, bad = parse_network(''.join(d.mermaid), {t.id for t in tasks})
         exp = collections.Counter()
         for t in tasks:
             if len(t.predecessors) == 0:
